@@ -94,6 +94,7 @@ class Report:
     # ------------------------------------------------------------------ finish
     def finish(self, replay_key=None):
         known, fixed = load_known()
+        thorough_only = load_known.thorough_only
         out = []
         exit_code = 0
         # floors
@@ -129,7 +130,7 @@ class Report:
         # stale known findings (informational)
         reported = seen_keys
         for key in sorted(known):
-            if key[0] == self.prop and key not in reported:
+            if key[0] == self.prop and key not in reported and not (self.tier == "quick" and key in thorough_only):
                 out.append("STALE-FINDING: property=%s %s %s: %s (listed in known_findings.json, no longer reported)"
                            % (self.prop, key[1], key[2], key[3]))
         for (rule, construct, why) in self.unrecognised:
@@ -208,6 +209,13 @@ def load_known():
     with open(KNOWN) as f:
         d = json.load(f)
     keys = set()
+    load_known.thorough_only = set()
     for e in d.get("findings", []):
-        keys.add((e["property"], e["rule"], e["construct"], _norm(e["detail"])))
+        k = (e["property"], e["rule"], e["construct"], _norm(e["detail"]))
+        keys.add(k)
+        if e.get("tier") == "thorough":
+            load_known.thorough_only.add(k)
     return keys, d.get("fixed", [])
+
+
+load_known.thorough_only = set()
